@@ -179,3 +179,18 @@ Theorem qname_default_ns_refuted :
   /\ ParserCorr.outcome_eqb (Parser.parse cfg_strict conv_c05 u_qn (Some root_qn) pevs_qn_default) (Parser.Ok o_qn []) = false
   /\ has_local_qname o_qn = true.
 Proof. repeat split; vm_compute; reflexivity. Qed.
+
+(* ---------------------------------------------------------------- a recursive class graph *)
+Example guards_tree :
+  wf_model u_tree root_tree = true
+  /\ fits conv_c05 u_tree ok_c05 py_isspace 4 root_tree o_tree = true
+  /\ noq o_tree = true.
+Proof. repeat split; vm_compute; reflexivity. Qed.
+
+Example real_events_tree :
+  (match expected_of conv_c05 (EventGen.generate false conv_c05 u_tree o_tree) with
+   | Some e => reads_b e pevs_tree | None => false end) = true
+  /\ Parser.parse cfg_strict conv_c05 u_tree (Some root_tree) pevs_tree = Parser.Ok o_tree []
+  /\ Parser.parse cfg_strict conv_c05 u_tree (Some root_tree)
+       (pump (expected_of conv_c05 (EventGen.generate false conv_c05 u_tree o_tree))) = Parser.Ok o_tree [].
+Proof. repeat split; vm_compute; reflexivity. Qed.
